@@ -1,5 +1,5 @@
 """C02 -- 4-/8-valued simulation follows the documented algebra and is X-sound."""
-from contracts import logic_sim_c
+from contracts import logic_sim_c, logic_io_c
 from pyvc.verify import verify
 from vk.common import PropertyResult
 from bounded import logic_drv
@@ -11,7 +11,7 @@ def run(tier, seed):
                          '(proved in C12): every op leaves in its output row the gate-by-gate composition of the documented operators, scratch rows and aliasing '
                          'obligations included; per primitive the lemmas L-Xsound (a 0/1 result is not contradicted by any completion) and L-8v2v (initial/final '
                          'components are the 2-valued function) are proved over the spec. Tier B (bounded): real LogicSim(m=4,8) vs the netlist oracle on the circuit space.')
-    res.report = verify(logic_sim_c.targets(ms=(4, 8), callback=(False,)) + logic_sim_c.composition_targets(ms=(4, 8)) + [logic_sim_c.lifting_lemmas(), logic_sim_c.xsound_lemmas()],
+    res.report = verify(logic_sim_c.targets(ms=(4, 8), callback=(False,)) + logic_sim_c.composition_targets(ms=(4, 8)) + [logic_sim_c.lifting_lemmas(), logic_sim_c.xsound_lemmas()] + logic_io_c.targets((2, 3)),
                         timeout_s=20 if tier == 'quick' else 120)
     res.bounded = [logic_drv.logic_part('C02', (4, 8), tier, seed)]
     res.assumptions = ['requires of the loop contract on real SimOps instances (scratch rows, output row != operand rows): bounded part only',
